@@ -24,6 +24,8 @@ func main() {
 	switch *mode {
 	case "api":
 		res = runAPI(raw)
+	case "tcp":
+		res = runTCP(raw)
 	default:
 		_ = raw
 		fmt.Fprintf(os.Stderr, "unknown mode %q\n", *mode)
